@@ -134,6 +134,9 @@ impl Run {
             });
             match hit {
                 Some(kf) => {
+                    if std::env::var("NUNMC_SHAPES").is_ok() {
+                        println!("  SHAPE {} | {} | {} | x{}", kf.id, v.clause, v.shape.chars().take(300).collect::<String>(), counts[k]);
+                    }
                     let e = known_hits
                         .entry(kf.id.clone())
                         .or_insert((kf.clone(), 0, v.shape.clone()));
